@@ -40,8 +40,17 @@ Proof.
   apply map_filter_lookup_Some in Hi as [Hi Hf]. symmetry. unfold evalc. by eapply eval_free.
 Qed.
 
-(* all assignments of the free nodes *)
-Definition free_vals (c : circuit) : list val := all_vals (elements (free_nodes c)).
+(* all assignments of the free nodes (an assignment = the list of the names that are 1) *)
+Definition lval (ones : list string) : val := λ n, bool_decide (n ∈ ones).
+Definition free_vals (c : circuit) : list val := lval <$> subsets (elements (free_nodes c)).
+Lemma free_vals_complete c (v : val) : ∃ a, a ∈ free_vals c ∧ ∀ n, n ∈ free_nodes c → a n = v n.
+Proof.
+  destruct (subsets_complete (elements (free_nodes c)) v) as (s' & Hin & Heq).
+  exists (lval s'). split; [unfold free_vals; by apply elem_of_list_fmap_1|].
+  intros n Hn%elem_of_elements. unfold lval. specialize (Heq n Hn).
+  destruct (v n) eqn:E; [apply bool_decide_eq_true; tauto|apply bool_decide_eq_false].
+  intros H. apply Heq in H. done.
+Qed.
 Definition forall_vals (c : circuit) (P : val → bool) : bool := forallb (λ a, P (evalc c a)) (free_vals c).
 
 (* ---- the arithmetic specifications, evaluated on a circuit ---- *)
@@ -78,10 +87,10 @@ Lemma forall_vals_sound c P : certb c = true → forall_vals c P = true →
 Proof.
   intros Hcert Hall Hext v Hv.
   destruct (certb_sound c Hcert) as (Hcl & Hac & Hev).
-  destruct (all_vals_complete (elements (free_nodes c)) v) as (a & Hin & Ha).
+  destruct (free_vals_complete c v) as (a & Hin & Ha).
   unfold forall_vals in Hall. rewrite forallb_forall in Hall.
   specialize (Hall a). rewrite <- elem_of_list_In in Hall. specialize (Hall Hin).
   destruct (Hev a) as [_ Huniq].
   rewrite (Hext v (evalc c a)); [done|].
-  apply Huniq; [done|]. intros n Hn. symmetry. apply Ha. by apply elem_of_elements.
+  apply Huniq; [done|]. intros n Hn. symmetry. by apply Ha.
 Qed.
